@@ -8,8 +8,11 @@ and truncated by one byte.
 Oracle: gen/dalvik.decode (typed in from the Dalvik specification, independent of androguard).
 """
 import itertools
+import os
+import pickle
 import re
 import struct
+import traceback
 
 from mc.core import Acc, h8
 from gen import dalvik as D
@@ -22,7 +25,9 @@ GARBAGE = bytes.fromhex("5aa5c33c")          # trailing garbage units (never equ
 RULE = ("for each of the 256 opcodes: first code unit with all 256 high bytes x every further unit from a 13-value "
         "unit alphabet (5-value boundary subset for 4-5 unit formats; thorough: full alphabet for 4-unit formats + ODEX "
         "jumbo table), each presented exact / +1 / +2 trailing garbage units / truncated by one byte; a base encoding is "
-        "non-trivial when some operand bit is set; base encodings are distinct by construction (enumeration index)")
+        "non-trivial when some operand bit is set; base encodings are distinct by construction (enumeration index); "
+        "history dimension: after an ODEX-mode sweep in the same process every unused opcode x 256 high bytes and every "
+        "valid opcode x 3 high bytes x 3 operand words are judged again in DEX mode")
 ASSUMPTIONS = [
     "oracle = gen/dalvik.py opcode table and decoder typed in from the Dalvik bytecode specification",
     "spec-invalid encodings (reserved high byte != 0 in 10x/20t/30t/32x, 35c/45cc count > 5, 45cc count 0) may be rejected "
@@ -30,6 +35,9 @@ ASSUMPTIONS = [
     "pool operands are compared as (operand kind, numeric index); the text a ClassManager resolves them to is not judged",
     "45cc/4rcc have no get_operands(); their registers and indices are read from get_output()",
     "ODEX formats (thorough) are outside the Dalvik specification: only length (format digit) and round trip are judged",
+    "history dimension: 'an ODEX-mode linear sweep and an optimized-instruction decode ran earlier in the same process' "
+    "(executed in a forked child so it cannot leak into other cases; the witness carries the history and replay runs it); "
+    "other process histories are not explored",
 ]
 MANIFEST = {
     "engine": "E1-product",
@@ -367,6 +375,8 @@ def space(ctx):
          "presentations": ["exact", "+1 garbage unit", "+2 garbage units", "truncated by one byte"],
          "base_encodings_by_units": {str(k): v for k, v in sorted(per_units.items())},
          "base_encodings": sum(per_units.values())}
+    d["histories"] = {h: {"what": t, "rejudged_base_encodings": len(D.UNUSED) * 256 + len(D.OPC) * len(HIST_HI) * len(HIST_UNITS)}
+                      for h, t in HISTORIES.items()}
     if ctx.thorough:
         d["odex_jumbo_opcodes"] = 14
     return d
@@ -393,33 +403,122 @@ def shards(ctx):
                 out.append(("ops", tuple(cur), 0, 256)); cur, cur_n = [], 0
     if cur:
         out.append(("ops", tuple(cur), 0, 256))
+    out += [("hist", h, part) for h in sorted(HISTORIES) for part in ("unused", "valid")]
     if ctx.thorough:
         out += [("odex", op16) for op16 in range(0xf2ff, 0x10000, 0x100)]
     return out
 
 
-def _present(acc, env, op, base, judge_fn, opkey):
-    """The four presentations of one base encoding."""
+def _present(acc, env, op, base, judge_fn, opkey, hist=None):
+    """The four presentations of one base encoding (hist: the history already executed in this process)."""
     for buf in (base, base + GARBAGE[:2], base + GARBAGE, base[:-1]):
         outcome, viols = judge_fn(env, opkey, buf)
         acc.n += 1
-        acc._oc.add(outcome if isinstance(outcome, tuple) else (outcome, len(buf) - len(base)))
-        if isinstance(outcome, str):
-            acc.count(outcome)
-        else:
-            acc.count("decoded-strict")
+        acc._oc.add((outcome if isinstance(outcome, tuple) else (outcome, len(buf) - len(base))) + ((hist,) if hist else ()))
+        name = outcome if isinstance(outcome, str) else "decoded-strict"
+        acc.count(hist + ":" + name if hist else name)
         for key, msg in viols:
             w = {"op": opkey, "buf": buf.hex()}
             if judge_fn is judge_odex:
                 w["mode"] = "odex"
+            if hist:
+                w["history"] = hist
+                key, msg = key + ":" + hist, "[%s] %s" % (HISTORIES[hist], msg)
             acc.violation(key, w, msg)
 
 
+# ----------------------------------------------------------------------------------- history dimension
+HISTORIES = {"after-odex-sweep": "earlier in this process an ODEX-mode linear sweep and an optimized-instruction decode ran"}
+ODEX_HISTORY_CODE = struct.pack("<8H", 0xf9ff, 0x0001, 0x0000, 0x0002, 0xffff, 0x0003, 0x0000, 0x000e)
+HIST_HI = (0x00, 0x21, 0xff)
+HIST_UNITS = (0x0000, 0x8001, 0xffff)
+
+
+def run_history(env, hist):
+    """Execute the history in this process; returns what it observed (not judged: ODEX is outside the spec table)."""
+    assert hist == "after-odex-sweep", hist
+    dex = env.dex
+    ocm = StubCM(dex, odex=True)
+    seen = []
+    try:
+        for ins in dex.LinearSweepAlgorithm.get_instructions(ocm, len(ODEX_HISTORY_CODE) // 2, ODEX_HISTORY_CODE, 0):
+            seen.append(ins.get_name())
+    except Exception as e:     # noqa
+        seen.append("EXC:" + type(e).__name__)
+    try:
+        seen.append(dex.get_optimized_instruction(ocm, 0xf2ff, struct.pack("<5H", 0xf2ff, 1, 0, 2, 3)).get_name())
+    except Exception as e:     # noqa
+        seen.append("EXC:" + type(e).__name__)
+    return seen
+
+
+def hist_cases(part):
+    """DEX-mode cases re-judged after a history: every unused opcode x every high byte; every valid opcode x 3 high
+    bytes x 3 uniform operand words."""
+    if part == "unused":
+        for op in sorted(D.UNUSED):
+            for h in range(256):
+                yield op, bytes((op, h))
+    else:
+        for op in sorted(D.OPC):
+            n = _n_units(op)
+            for u in HIST_UNITS:
+                for h in HIST_HI:
+                    yield op, bytes((op, h)) + struct.pack("<%dH" % (n - 1), *([u] * (n - 1)))
+
+
+def _in_child(fn):
+    """Run fn() in a forked child and return its (picklable) result: histories change process-global state and must
+    not leak into the cases a pool worker judges afterwards."""
+    r, w = os.pipe()
+    pid = os.fork()
+    if pid == 0:
+        code = 0
+        try:
+            os.close(r)
+            try:
+                data = pickle.dumps(("ok", fn()))
+            except BaseException:     # noqa
+                data = pickle.dumps(("err", traceback.format_exc()))
+            with os.fdopen(w, "wb") as f:
+                f.write(data)
+        except BaseException:     # noqa
+            code = 1
+        finally:
+            os._exit(code)
+    os.close(w)
+    with os.fdopen(r, "rb") as f:
+        data = f.read()
+    os.waitpid(pid, 0)
+    if not data:
+        raise RuntimeError("history child died without a result")
+    st, val = pickle.loads(data)
+    if st != "ok":
+        raise RuntimeError("history child failed:\n" + val)
+    return val
+
+
 def run_shard(ctx, shard):
+    if shard[0] in ("hist", "odex"):
+        return _in_child(lambda: _run_shard(ctx, shard))
+    return _run_shard(ctx, shard)
+
+
+def _run_shard(ctx, shard):
     env = Env()
     acc = Acc()
     acc._oc = set()
-    if shard[0] == "odex":
+    if shard[0] == "hist":
+        _, hist, part = shard
+        seen = run_history(env, hist)
+        acc.count(hist + ":history-instructions", len([x for x in seen if not x.startswith("EXC:")]))
+        for op, base in hist_cases(part):
+            _present(acc, env, op, base, judge, op, hist=hist)
+            acc.nt_disjoint += 1
+            acc.count(hist + ":bases")
+        if part == "unused":
+            acc.sample({"history": hist, "history_observed": seen, "then": "f100 (unused opcode) in DEX mode"})
+    elif shard[0] == "odex":
         op16 = shard[1]
         cls = env.dex.DALVIK_OPCODES_OPTIMIZED[op16][0]
         n = ODEX_UNITS[cls.__name__]
@@ -459,6 +558,8 @@ def run_shard(ctx, shard):
 def replay(ctx, w):
     env = Env()
     buf = bytes.fromhex(w["buf"])
+    if w.get("history"):
+        run_history(env, w["history"])          # the replay process is fresh: execute the history first
     if w.get("mode") == "odex":
         _, viols = judge_odex(env, w["op"], buf)
     else:
@@ -478,6 +579,12 @@ def finalize(ctx, acc):
         if acc.extra.get("odex_bases", 0) != ob:
             acc.harness_error("ODEX base encodings %d != %d" % (acc.extra.get("odex_bases", 0), ob))
         want += 4 * ob
+    hb = acc.extra.get("after-odex-sweep:bases", 0)
+    if hb != len(D.UNUSED) * 256 + len(D.OPC) * len(HIST_HI) * len(HIST_UNITS):
+        acc.harness_error("history dimension: %d base encodings re-judged after the ODEX sweep" % hb)
+    if acc.extra.get("after-odex-sweep:history-instructions", 0) < 2:
+        acc.note("the ODEX-mode history sweep itself yielded fewer than 2 instructions per run (ODEX decoding is not judged)")
+    want += 4 * hb
     if acc.n != want:
         acc.harness_error("evaluations %d != 4 presentations x base encodings = %d" % (acc.n, want))
     if acc.extra.get("opcodes", 0) != 256:
